@@ -1,59 +1,64 @@
 import GuppyVerif.Lemmas.C03Top
 import GuppyVerif.Lemmas.C03Fuel
 import GuppyVerif.Lemmas.C05Order
-/-! # C05 — Side effects happen once each, in Python's evaluation order  (partial)
+/-! # C05 — Side effects happen once each, in Python's evaluation order
 
 Side effects are calls of external functions; each call is appended to the trace with its arguments
 and result, and the result may depend on the whole history, so *order*, *multiplicity* and *which
 short-circuit operands are evaluated* are all observable in the trace.
 
-**Full statement (`lift_preserves_order`)**: for every expression / program, the trace of the built CFG
-equals the trace of Python's evaluation.  It is **false of the code** (defect D9): `d9_*` below prove,
-in the model (which the harness ties to the real `CFGBuilder` on every run, including on these very
-programs), that (i) the middle operand of a chained comparison is evaluated twice and (ii) lifted
-sub-expressions (IfExp, `and`/`or`, chained comparison, walrus) are hoisted before side-effecting
-siblings to their left.  **Proved**: the statement for the *hoist-safe* fragment (`Spec/C03.lean`).
+**Statement (`lift_preserves_order`, `branch_preserves_order`, `calls_in_python_order`)**: for every
+expression / program, the trace of the built CFG equals the trace of Python's evaluation.  Until the repairs
+f9e33c1 / 7c8aeda it was false of the code (defect D9: (i) the middle operand of a chained comparison was
+evaluated twice and (ii) lifted sub-expressions — IfExp, `and`/`or`, chained comparison, walrus — were hoisted
+before side-effecting siblings to their left) and was proved for a *hoist-safe* fragment only.  The model
+(`Model/Builder.lean`) now follows the repaired builder (`ExprBuilder.build_operands`: an already built
+operand is stored in a temporary before a later operand is built that would overtake it; the middle operand
+of a chained comparison is kept in a temporary unless it is a constant or an unassigned name) and the
+theorems hold for all programs of the fragment.  The former counterexamples are kept as theorems of the
+repaired model (`d9_*_fixed`).
 `track_hugr_side_effects` (the state-order edges of the lowered HUGR) is modelled in
 `Model/OrderEdges.lean` and characterised at the end of this file.  Unmodelled: which HUGR node each Guppy
 construct is lowered to, panics, qubit operations. -/
 namespace GuppyVerif.Builder
 open GuppyVerif.Surface
 
-/-- **C05 `lift_preserves_order`, partial (value position)**: building a hoist-safe expression from an open
-    block of any builder state: in every extension of the CFG, running the hoisted part and then evaluating
-    the residual expression yields Python's value **and Python's trace** — every call exactly once, in
-    Python's order, short-circuit operands only when Python evaluates them. -/
-theorem lift_preserves_order_partial (env : Env) (e : Expr) (hu : userE e = true) (hs : hsE e = true)
+/-- **C05 `lift_preserves_order` (value position)**: building an expression from an open block of any builder
+    state: in every extension of the CFG, running the hoisted part and then evaluating the residual
+    expression yields Python's value **and Python's trace** — every call exactly once, in Python's order,
+    short-circuit operands only when Python evaluates them.  (`userE`: the expression does not mention the
+    builder's `%tmp` variables.) -/
+theorem lift_preserves_order (env : Env) (e : Expr) (hu : userE e = true)
     (b : Nat) (σ : BState) (bl : List Block) (hb : b < σ.len) (ho : (σ.blk b).succs = [])
     (hx : Ext (buildE e b σ).2.2 bl) (s : S) (rv : Option Val) :
     ∃ s2 : S, Steps env bl ⟨b, (σ.blk b).stmts.length, s, rv⟩
         ⟨(buildE e b σ).2.1, ((buildE e b σ).2.2.blk (buildE e b σ).2.1).stmts.length, s2, rv⟩ ∧
       (eval env (buildE e b σ).1 s2).1 = (eval env e s).1 ∧
       (eval env (buildE e b σ).1 s2).2.2 = (eval env e s).2.2 := by
-  obtain ⟨s2, h1, h2, _, _⟩ := sem_all env e .val b σ bl hu hs hb ho hx s rv
+  obtain ⟨s2, h1, h2, _, _⟩ := sem_all env e .val b σ bl hu hb ho hx s rv
   have h2' : eval env (buildE e b σ).1 s2 = ((eval env e s).1, (s2.1, (eval env e s).2.2)) := h2
   exact ⟨s2, h1, by rw [h2'], by rw [h2']⟩
 
-/-- **C05, partial (branch position: `if` / `while` conditions, operands of `and` / `or` / `not`)**: the
+/-- **C05 (branch position: `if` / `while` conditions, operands of `and` / `or` / `not`)**: the
     branch code reaches the true target iff Python's value is truthy, having produced exactly Python's trace. -/
-theorem branch_preserves_order_partial (env : Env) (e : Expr) (hu : userE e = true) (hs : hsE e = true)
+theorem branch_preserves_order (env : Env) (e : Expr) (hu : userE e = true)
     (b t f : Nat) (σ : BState) (bl : List Block) (hb : b < σ.len) (ho : (σ.blk b).succs = [])
     (hx : Ext (branchE e b t f σ) bl) (s : S) (rv : Option Val) :
     ∃ s2 : S, Steps env bl ⟨b, (σ.blk b).stmts.length, s, rv⟩
         ⟨if (eval env e s).1.truthy then t else f, 0, s2, rv⟩ ∧ s2.2 = (eval env e s).2.2 := by
-  obtain ⟨s2, h1, h2, _, _⟩ := sem_all env e (.br t f) b σ bl hu hs hb ho hx s rv
+  obtain ⟨s2, h1, h2, _, _⟩ := sem_all env e (.br t f) b σ bl hu hb ho hx s rv
   exact ⟨s2, h1, h2⟩
 
-/-- **C05, partial (whole programs)**: the calls made by the CFG of a hoist-safe program are Python's calls:
+/-- **C05 (whole programs)**: the calls made by the CFG of a program are Python's calls:
     same functions, same arguments, same results, same order, same number. -/
-theorem calls_in_python_order_partial (env : Env) (p : Stmt) (rn : Bool) (g : Cfg) (st0 : Store) (o : Outcome)
-    (st' : S) (hu : userS p = true) (hs : hoistSafe p = true)
+theorem calls_in_python_order (env : Env) (p : Stmt) (rn : Bool) (g : Cfg) (st0 : Store) (o : Outcome)
+    (st' : S) (hu : userS p = true)
     (hsc : loopScoped p false = true) (hb : buildCfg rn p = .ok g) (hex : Exec env p (st0, []) o st') :
     ∃ (n : Nat) (c : Config), run env g.blocks n ⟨0, 0, (st0, []), none⟩ = some c ∧ c.s.2 = st'.2 := by
-  obtain ⟨n, c, h1, _, h2, _⟩ := buildCfg_correct hu hs hsc hb hex
+  obtain ⟨n, c, h1, _, h2, _⟩ := buildCfg_correct hu hsc hb hex
   exact ⟨n, c, h1, h2⟩
 
-/-! ## D9: the full statement is false of the code -/
+/-! ## D9 (fixed by f9e33c1 / 7c8aeda): the former counterexamples, on the repaired builder -/
 
 /-- a CFG run is deterministic: whatever fuel suffices gives the same final configuration -/
 theorem run_det {env : Env} {bl : List Block} : ∀ (n m : Nat) (c a b : Config),
@@ -103,69 +108,63 @@ def d9Walrus : Stmt :=
 def d9Aug : Stmt :=
   .cons (.aug (.user "x") .add (.walrus (.user "x") (.num 5))) (.cons (.ret (.var (.user "x"))) .nil)
 
-/-- the three programs are ordinary surface programs — and not hoist-safe -/
+/-- the four programs are ordinary surface programs -/
 example : (userS d9Chain && userS d9IfExp && userS d9Walrus && userS d9Aug) = true := by decide
-example : (hoistSafe d9Chain || hoistSafe d9IfExp || hoistSafe d9Walrus || hoistSafe d9Aug) = false := by decide
-example : hsClass d9Chain = "chain" ∧ hsClass d9IfExp = "sibling" ∧ hsClass d9Walrus = "sibling" := by decide
 
-/-- **D9 (i)**: `-1 < f() < 1`: Python calls `f` once and returns `True`; the built CFG calls `f` twice (the
-    second call returns something else) and returns `False`. -/
-theorem d9_chained_compare_middle_twice :
+/-- **D9 (i), fixed**: `-1 < f() < 1`: Python calls `f` once and returns `True`; so does the built CFG (the value
+    of `f()` is kept in a temporary for the second comparison).  Before 7c8aeda the CFG called `f` twice and
+    returned `False`. -/
+theorem d9_chained_compare_middle_once_fixed :
     (∃ st', Exec envCount d9Chain (st00, []) (.ret (.bool true)) st' ∧ st'.2.length = 1) ∧
     (∀ n c, run envCount (cfgOf d9Chain).blocks n ⟨0, 0, (st00, []), none⟩ = some c →
-      c.ret = some (.bool false) ∧ c.s.2.length = 2 ∧ c.s.2.map (·.f) = ["f", "f"]) := by
+      c.ret = some (.bool true) ∧ c.s.2.length = 1 ∧ c.s.2.map (·.f) = ["f"]) := by
   constructor
   · exact ⟨_, execFuel_sound envCount 10 d9Chain (st00, []) _ _ rfl, by decide⟩
   · intro n c h
-    have := run_facts (fun c => (c.ret, c.s.2.length, c.s.2.map (·.f))) (some (.bool false), 2, ["f", "f"]) (by decide) n c h
+    have := run_facts (fun c => (c.ret, c.s.2.length, c.s.2.map (·.f))) (some (.bool true), 1, ["f"]) (by decide) n c h
     simp only [Prod.mk.injEq] at this; exact this
 
-/-- **D9 (ii), conditional expression**: `g() + (h() if c() else k())`: Python calls `g, c, h`; the CFG calls
-    `c, k, g` (the condition sees a different history, a different branch runs) and returns another value. -/
-theorem d9_ifexp_hoisted_before_left_sibling :
+/-- **D9 (ii), conditional expression, fixed**: `g() + (h() if c() else k())`: Python calls `g, c, h`; so does the
+    CFG (`g()` is stored in a temporary before the conditional is built).  Before f9e33c1 the CFG called
+    `c, k, g` and returned another value. -/
+theorem d9_ifexp_after_left_sibling_fixed :
     (∃ st', Exec envCount d9IfExp (st00, []) (.ret (.int 2)) st' ∧ st'.2.map (·.f) = ["g", "c", "h"]) ∧
     (∀ n c, run envCount (cfgOf d9IfExp).blocks n ⟨0, 0, (st00, []), none⟩ = some c →
-      c.ret = some (.int 3) ∧ c.s.2.map (·.f) = ["c", "k", "g"]) := by
+      c.ret = some (.int 2) ∧ c.s.2.map (·.f) = ["g", "c", "h"]) := by
   constructor
   · exact ⟨_, execFuel_sound envCount 10 d9IfExp (st00, []) _ _ rfl, by decide⟩
   · intro n c h
-    have := run_facts (fun c => (c.ret, c.s.2.map (·.f))) (some (.int 3), ["c", "k", "g"]) (by decide) n c h
+    have := run_facts (fun c => (c.ret, c.s.2.map (·.f))) (some (.int 2), ["g", "c", "h"]) (by decide) n c h
     simp only [Prod.mk.injEq] at this; exact this
 
-/-- **D9 (ii), walrus**: `g() - (x := h())` is built as `x = h(); return g() - x`: `h` runs before `g`. -/
-theorem d9_walrus_hoisted_before_left_sibling :
+/-- **D9 (ii), walrus, fixed**: `g() - (x := h())` is built as `%tmp = g(); x = h(); return %tmp - x`.  Before
+    f9e33c1 it was `x = h(); return g() - x`. -/
+theorem d9_walrus_after_left_sibling_fixed :
     (∃ st', Exec envCount d9Walrus (st00, []) (.ret (.int (-1))) st' ∧ st'.2.map (·.f) = ["g", "h"]) ∧
     (∀ n c, run envCount (cfgOf d9Walrus).blocks n ⟨0, 0, (st00, []), none⟩ = some c →
-      c.ret = some (.int 1) ∧ c.s.2.map (·.f) = ["h", "g"]) := by
+      c.ret = some (.int (-1)) ∧ c.s.2.map (·.f) = ["g", "h"]) := by
   constructor
   · exact ⟨_, execFuel_sound envCount 10 d9Walrus (st00, []) _ _ rfl, by decide⟩
   · intro n c h
-    have := run_facts (fun c => (c.ret, c.s.2.map (·.f))) (some (.int 1), ["h", "g"]) (by decide) n c h
+    have := run_facts (fun c => (c.ret, c.s.2.map (·.f))) (some (.int (-1)), ["g", "h"]) (by decide) n c h
     simp only [Prod.mk.injEq] at this; exact this
 
-/-- **D9 (ii), data flow only**: `x += (x := 5)` with `x = 0`: Python gives 5 (the target is read first), the CFG
-    `x = 5; x += x` gives 10 — no call involved. -/
-theorem d9_aug_target_read_after_hoist :
+/-- **D9 (ii), data flow only, fixed**: `x += (x := 5)` with `x = 0`: Python gives 5 (the target is read first), and
+    so does the CFG `%tmp = x; x = 5; x = %tmp + x`.  Before f9e33c1 the CFG `x = 5; x += x` gave 10. -/
+theorem d9_aug_target_read_first_fixed :
     (∃ st', Exec envCount d9Aug (st00, []) (.ret (.int 5)) st') ∧
-    (∀ n c, run envCount (cfgOf d9Aug).blocks n ⟨0, 0, (st00, []), none⟩ = some c → c.ret = some (.int 10)) := by
+    (∀ n c, run envCount (cfgOf d9Aug).blocks n ⟨0, 0, (st00, []), none⟩ = some c → c.ret = some (.int 5)) := by
   constructor
   · exact ⟨_, execFuel_sound envCount 10 d9Aug (st00, []) _ _ rfl⟩
   · intro n c h
-    have := run_facts (fun c => c.ret) (some (.int 10)) (by decide) n c h
+    have := run_facts (fun c => c.ret) (some (.int 5)) (by decide) n c h
     exact this
 
-/-- hence the unrestricted statement (no hoist-safety hypothesis) is false -/
-theorem lift_preserves_order_full_is_false :
-    ¬ (∀ (env : Env) (p : Stmt) (g : Cfg) (st0 : Store) (o : Outcome) (st' : S), userS p = true →
-        loopScoped p false = true → buildCfg false p = .ok g → Exec env p (st0, []) o st' →
-        ∃ (n : Nat) (c : Config), run env g.blocks n ⟨0, 0, (st0, []), none⟩ = some c ∧ c.s.2 = st'.2) := by
-  intro H
-  obtain ⟨⟨st', hex, hlen⟩, hcfg⟩ := d9_chained_compare_middle_twice
-  obtain ⟨n, c, hrun, htr⟩ := H envCount d9Chain (cfgOf d9Chain) st00 _ st' (by decide) (by decide)
-    (cfgOf_ok d9Chain (by decide)) hex
-  have := (hcfg n c hrun).2.1
-  rw [htr, hlen] at this
-  cases this
+/-- the shape of the repair: exactly one temporary is drawn for `g() - (x := h())`, none for `g() - h()` -/
+example : (buildE (.bi (.arith .sub) (.call0 "g") (.walrus (.user "x") (.call0 "h"))) 0 initState).2.2.nextTmp = 1 ∧
+    (buildE (.bi (.arith .sub) (.call0 "g") (.call0 "h")) 0 initState).2.2.nextTmp = 0 ∧
+    (buildE (.cmp2 .lt .lt (.var (.user "a")) (.var (.user "b")) (.var (.user "c"))) 0 initState).2.2.nextTmp = 1 ∧
+    (buildE (.cmp2 .lt .lt (.var (.user "a")) (.call0 "f") (.var (.user "c"))) 0 initState).2.2.nextTmp = 2 := by decide
 
 /-! ## `track_hugr_side_effects`: state-order edges (model `Model/OrderEdges.lean`)
 
@@ -216,12 +215,12 @@ example : (OrderEdges.runAll exOrder).dup = false ∧
 
 /-! ## Non-vacuity of the positive theorems -/
 
-/-- `(a if c() else f()) + g(x, (y := h()))` is hoist-safe although it lifts twice: the left operand's
+/-- `(a if c() else f()) + g(x, (y := h()))` lifts twice and needs no extra temporary: the left operand's
     residual is a temporary, and the walrus on the right does not assign anything the left residual reads -/
 def exSafe : Expr :=
   .bi (.arith .add) (.ite (.call0 "c") (.var (.user "a")) (.call0 "f"))
     (.bi (.call2 "g") (.var (.user "x")) (.walrus (.user "y") (.call0 "h")))
-example : userE exSafe = true ∧ hsE exSafe = true ∧ lifts exSafe = true := by decide
+example : userE exSafe = true ∧ lifts exSafe = true := by decide
 example : ((buildE exSafe 0 initState).2.2.blk 0).succs.length = 2 ∧ (buildE exSafe 0 initState).2.1 = 4 := by decide
 
 end GuppyVerif.Builder
